@@ -708,3 +708,58 @@ Definition nparse (strict : bool) (items : list nitem) (conf : list Z) : bool :=
 
 Definition nparse_config (strict : bool) (items : list nitem) (raw : list Z) : bool :=
   let conf := strip_comments raw in check_braces conf O && nparse strict items conf.
+
+(* ---------------------------------------------------------------- a parser object over a SEQUENCE of configurations *)
+
+(* the part of a colvarparse object that survives a call: allowed_keywords and data_begin_pos/data_end_pos
+   (key_set_modes only matters for parse_required / defaults and is not part of this model) *)
+Record mstate := { ms_allowed : list (list Z); ms_regs : list kl_reg }.
+Definition mempty : mstate := {| ms_allowed := []; ms_regs := [] |}.
+
+(* look up the items of one level with THIS parser object: its registry grows on top of what it held before *)
+Fixpoint mitems (strict : bool) (items : list nitem) (conf : list Z) (st : mstate) : mstate * bool :=
+  match items with
+  | [] => (st, false)
+  | it :: rest =>
+    let r := item_res strict it conf in
+    let st' := {| ms_allowed := ms_allowed st ++ [ir_allowed r]; ms_regs := ms_regs st ++ ir_regs r |} in
+    let '(st2, err) := mitems strict rest conf st' in (st2, ir_err r || err)
+  end.
+
+(* colvarparse::check_keywords with the registry the object holds: clear_keyword_registry() only on success *)
+Definition p_check (st : mstate) (conf : list Z) : mstate * bool :=
+  match check_keywords (ms_allowed st) conf (ms_regs st) with
+  | CK_ok => (mempty, true)
+  | CK_unknown_keyword => (st, false)
+  end.
+
+(* one parser object, several texts, nobody clears it in between: lookups then check_keywords, per text *)
+Fixpoint pseq (strict : bool) (items : list nitem) (st : mstate) (confs : list (list Z)) : list bool :=
+  match confs with
+  | [] => []
+  | conf :: rest =>
+    let '(st1, err) := mitems strict items conf st in
+    let '(st2, ok) := p_check st1 conf in
+    (negb err && ok) :: pseq strict items st2 rest
+  end.
+
+(* colvarmodule::read_config_string on the module's parser object:
+   unmatched braces: error returned at once (nothing was looked up, the object is left as it was);
+   an error while the keywords / blocks are parsed: catch_input_errors -> parse->clear();
+   check_keywords: success -> clear_keyword_registry(); failure -> catch_input_errors -> parse->clear() *)
+Definition mstep (strict : bool) (items : list nitem) (st : mstate) (raw : list Z) : mstate * bool :=
+  let conf := strip_comments raw in
+  if negb (check_braces conf O) then (st, false)
+  else
+    let '(st1, err) := mitems strict items conf st in
+    if err then (mempty, false)
+    else let '(st2, ok) := p_check st1 conf in
+         if ok then (st2, true) else (mempty, false).
+
+Fixpoint mrun (strict : bool) (items : list nitem) (st : mstate) (raws : list (list Z)) : mstate * list bool :=
+  match raws with
+  | [] => (st, [])
+  | raw :: rest =>
+    let '(st1, ok) := mstep strict items st raw in
+    let '(st2, oks) := mrun strict items st1 rest in (st2, ok :: oks)
+  end.
